@@ -42,6 +42,7 @@ func VH20a_print() {
 	a := &App{printFormat: f, stdOut: w}
 	a.printMsg(mkMsg(body))
 	out := w.out
+	verif.Observe("print", f, out, w.writes)
 	switch f {
 	case "raw":
 		verif.Assert(verif.BytesEq(out, body), lab+"/raw-bytes-changed")
@@ -129,6 +130,9 @@ func VH20b_msgpack() {
 	a := &App{printFormat: "msgpack", stdOut: w}
 	a.printMsg(mkMsg(body))
 	out := w.out
+	if len(out) >= 6 {
+		verif.Observe("msgpack", out[:6], len(out))
+	}
 	// reference msgpack bin decoder
 	verif.Assert(len(out) >= 2, lab+"/short-output")
 	if len(out) < 2 {
@@ -170,6 +174,7 @@ func VH20c_duration() {
 	c := cases[verif.Choice("case", len(cases))]
 	var d Duration
 	err := d.UnmarshalText([]byte(c.s))
+	verif.Observe("duration", c.s, err, int64(d))
 	verif.Assert((err == nil) == c.ok, lab+"/accept-reject/"+c.s)
 	if err == nil && c.ok {
 		verif.Assert(time.Duration(d) == c.dur, lab+"/value/"+c.s)
@@ -242,6 +247,7 @@ func VH20d_sendloop() {
 		verif.Assert(err == nil, lab+"/sendrecvloop-error")
 		verif.Assert(len(s.sent) == 1, lab+"/sendrecv-without-interval-sends-once")
 	}
+	verif.Observe("sendloop", kind, err, len(s.sent), s.recvs)
 	for _, b := range s.sent {
 		verif.Assert(verif.BytesEq(b, data), lab+"/sent-bytes-differ-from-data")
 	}
